@@ -26,8 +26,8 @@ CLAIM = dict(
 
 THEOREMS = ["table_shape", "table_cells", "board_has_48_chips", "links_documented", "eth_triple_documented",
             "tile_unique", "tile_cover", "chip_coord_is_offset",
-            "local_eth_spec", "spec_local_unique", "local_eth_torus", "local_eth_torus_unique", "local_eth_no_wrap",
-            "eth_coords_mem", "eth_coords_nodup", "spec_eth_coords_iff", "eth_coords_spec", "eth_coords_root_mod12",
+            "local_eth_spec", "spec_local_unique", "spec_local_e_iff", "local_eth_torus", "local_eth_torus_unique", "local_eth_no_wrap",
+            "eth_coords_mem", "eth_coords_nodup", "spec_eth_coords_iff", "eth_coords_spec", "eth_coords_root_mod12", "eth_coords_one_per_board",
             "local_eth_mem_eth_coords",
             "fpga_table_edges", "fpga_table_numbering", "fpga_link_spec", "fpga_link_iff_leaves_board",
             "fpga_link_on_board", "fpga_link_distinct", "fpga_board_spec",
@@ -83,9 +83,11 @@ def impl(case):
                     r = g.spinn5_fpga_link(case["ex"] + bx, case["ey"] + by, Links(l), case["rx"], case["ry"])
                     out.append(None if r is None else [int(r[0]), int(r[1])])
             return {"ok": out}
-    except (ZeroDivisionError, IndexError, ValueError, KeyError, TypeError, OverflowError) as e:
+        raise AssertionError("unknown fn " + fn)
+    except AssertionError:
+        raise
+    except Exception as e:      # any exception of the implementation is an outcome, not a harness failure
         return _exc(e)
-    raise ValueError("unknown fn " + fn)
 
 
 def requests(case, out):
@@ -97,16 +99,15 @@ def requests(case, out):
         rq.append(("model", dict(a, suite="c19", op=fn)))
     ok = "ok" in out
     if fn == "local_eth" and ok and case["w"] > 0 and case["h"] > 0:
-        # the on-board coordinate the implementation reports for the same chip
-        b = impl(dict(case, fn="chip_coord"))
-        if "ok" in b:
-            rq.append(("spec", dict(a, suite="c19", op="spec_local", e=out["ok"], b=b["ok"])))
+        # judged on its own: some chip b of the hand-written board makes SpecLocal true (the on-board
+        # coordinate reported by spinn5_chip_coord is judged in its own case)
+        rq.append(("spec", dict(a, suite="c19", op="spec_local_e", e=out["ok"])))
     elif fn == "chip_coord" and ok:
-        # w = h = 12 * big: e is the plane Ethernet chip reduced into a machine containing it
-        e = impl(dict(case, fn="local_eth", w=12 * 10 ** 6, h=12 * 10 ** 6))
-        if "ok" in e:
-            rq.append(("spec", dict(a, suite="c19", op="spec_local", w=12 * 10 ** 6, h=12 * 10 ** 6,
-                                    e=e["ok"], b=out["ok"])))
+        # only the on-board coordinate is judged here: b is a board chip and c - b an Ethernet chip
+        # (e is set to what SpecLocal demands for this b on a huge machine)
+        big = 12 * 10 ** 6
+        e = [(case["x"] - out["ok"][0]) % big, (case["y"] - out["ok"][1]) % big]
+        rq.append(("spec", dict(a, suite="c19", op="spec_local", w=big, h=big, e=e, b=out["ok"])))
     elif fn == "fpga_link" and ok:
         rq.append(("spec", dict(a, suite="c19", op="spec_fpga", out=out["ok"])))
     elif fn == "eth_coords" and ok:
@@ -135,7 +136,7 @@ def requests(case, out):
 KEYS = {"local_eth": "local-eth-not-board-ethernet-chip", "chip_coord": "chip-coord-not-offset-from-ethernet-chip",
         "fpga_link": "fpga-link-not-iff-leaves-board", "eth_coords": "eth-coords-not-lattice-points-in-machine",
         "std_dims": "std-dims-not-squarest-triads", "link_vec": "link-vector-not-documented-direction",
-        "fpga_board": "fpga-numbers-not-distinct"}
+        "fpga_board": "fpga-board-numbers-not-distinct-or-incomplete"}
 
 
 def in_domain(c):
@@ -348,6 +349,19 @@ def link_cases(ctx):
     return [{"fn": "link_vec", "link": l} for l in range(6)]
 
 
+def corpus_cases():
+    """corpus/C19/*.json: {"cases": [...]} or a replay file {"case": {...}}; run first"""
+    import glob
+    import json
+    import os
+    d = os.path.join(os.path.dirname(os.path.dirname(os.path.abspath(__file__))), "corpus", "C19")
+    out = []
+    for f in sorted(glob.glob(os.path.join(d, "*.json"))):
+        j = json.load(open(f))
+        out += j.get("cases", []) + ([j["case"]] if "case" in j else [])
+    return out
+
+
 def run(ctx):
     ctx.extra["rule"] = RULE
     ctx.assumptions += [
@@ -361,7 +375,7 @@ def run(ctx):
     sizes = [(12, 12), (12 * rng.randrange(2, 6), 12 * rng.randrange(2, 6))]
     if not ctx.quick:
         sizes += [(24, 12), (rng.randrange(13, 60), rng.randrange(13, 60))]
-    cases = link_cases(ctx)
+    cases = corpus_cases() + link_cases(ctx)
     cases += exhaustive_cells(ctx, roots, sizes)
     cases += random_cells(ctx, ctx.scale(2000, 40000) * (4 if big else 1))
     cases += eth_cases(ctx, ctx.scale(300, 3000) * (4 if big else 1), ctx.scale(60, 96))
@@ -377,6 +391,8 @@ def run(ctx):
     ctx.exhaustive = True   # the finite part (144 cells x 6 links, 48 board chips x 6 links) is enumerated completely
     for i in range(0, len(cases), 4000):
         eval_cases(ctx, cases[i:i + 4000])
+    # report the smallest failing input of each class (conclude() keeps the first per key)
+    ctx.concrete.sort(key=lambda t: sum(abs(v) for v in t[2].values() if isinstance(v, int) and not isinstance(v, bool)))
 
 
 def replay(ctx, payload):
